@@ -245,9 +245,12 @@ class StreamSession:
             except (pa.ArrowInvalid, OSError, StopIteration):
                 return
         _MAX_DRAIN = 10_000
-        with contextlib.suppress(StopIteration, RpcError, pa.ArrowInvalid, OSError):
+        with contextlib.suppress(StopIteration, pa.ArrowInvalid, OSError):
             for _ in range(_MAX_DRAIN):
-                _read_batch_with_log_check(self._output_reader, self._on_log, self._external_config, shm=self._shm)
+                # An error batch is not the end of the response: keep reading
+                # to EOS so the next call starts at a message boundary.
+                with contextlib.suppress(RpcError):
+                    _read_batch_with_log_check(self._output_reader, self._on_log, self._external_config, shm=self._shm)
 
     def cancel(self) -> None:
         """Signal the server to stop processing and discard pending work.
@@ -283,9 +286,12 @@ class StreamSession:
             except (pa.ArrowInvalid, OSError, StopIteration):
                 return
         _MAX_DRAIN = 10_000
-        with contextlib.suppress(StopIteration, RpcError, pa.ArrowInvalid, OSError):
+        with contextlib.suppress(StopIteration, pa.ArrowInvalid, OSError):
             for _ in range(_MAX_DRAIN):
-                _read_batch_with_log_check(self._output_reader, self._on_log, self._external_config, shm=self._shm)
+                # An error batch is not the end of the response: keep reading
+                # to EOS so the next call starts at a message boundary.
+                with contextlib.suppress(RpcError):
+                    _read_batch_with_log_check(self._output_reader, self._on_log, self._external_config, shm=self._shm)
 
     def __enter__(self) -> StreamSession:
         """Enter context manager."""
